@@ -42,6 +42,9 @@ def cases(tier, seed):
             out.append({"h": "H15", "collect": col, "dests": [0, 1], "burst": n, "stop_at": None, "_w": 3})
         # a stopped instance's queued unicast offers are discarded (see ServiceInstance.stop):
         # the queue for that peer must keep working afterwards
+        # the same entry (equal by value) requested again: exactly-once is per request
+        for dests in ([1, 1], [0, 0], [1, 1, 1], [0, 1, 0], [1, 0, 1]):
+            out.append({"h": "H15", "collect": col, "dests": dests, "same_tag": True, "stop_at": None, "_w": 3})
         for tail in ([1], [1, 1], [1, 0], [2, 1]):
             out.append({"h": "H15", "collect": col, "dests": [1] + tail, "purge_after": 0, "stop_at": None, "_w": 3})
     return out
@@ -67,7 +70,8 @@ def h15(E, M, case):
 
     def request(dest, t, name, n=1):
         tags = list(range(tag[0], tag[0] + n))
-        tag[0] += n
+        if not case.get("same_tag"):
+            tag[0] += n
         for tg in tags:
             reqs.append((tg, dest, t))
 
@@ -114,6 +118,18 @@ def h15(E, M, case):
         for e in sdm["entries"]:
             sent.append((e["service"], addr, ts, n))
     E.observe([[s[0], str(s[1]), s[2], s[3]] for s in sent])
+    if case.get("same_tag"):
+        # all requests carry an equal entry: each must leave once, to its own destination,
+        # in time; matched in order per destination
+        E.require(len(sent) == len(reqs), "every queued entry is transmitted exactly once, also when an equal entry is queued again", {"queued": len(reqs), "sent": len(sent)})
+        for d in DESTS:
+            want = [r for r in reqs if r[1] == d]
+            got = [x for x in sent if x[1] == (d if d is not None else MC)]
+            E.require(len(want) == len(got), "each destination receives as many entries as were queued for it", {"dest": str(d), "queued": len(want), "sent": len(got)})
+            for r, x in zip(want, got):
+                E.reach("h15.sent")
+                E.require(E.And(x[2] >= r[2], x[2] <= r[2] + C), "an entry leaves no later than the collection timeout after it was queued")
+        return
     for tg, dest, tq in reqs:
         mine = [s for s in sent if s[0] == tg]
         if tg == 0x0F00:
